@@ -195,6 +195,46 @@ macro_rules! block_end_deep {
         });
     };
 }
+/// Indentation sweep: "x\n" + S spaces + one arbitrary byte + filler, then a short
+/// last line; S and min_indent range over 0..=26 (past one SSE2 chunk of spaces and
+/// up to one AVX2 chunk minus the header), everything else is concrete.
+macro_rules! block_end_indent {
+    ($name:ident, $avx2:path) => {
+        kernel!($name, $avx2, {
+            let s: usize = kani::any();
+            let t: usize = kani::any();
+            let mi: usize = kani::any();
+            let c: u8 = kani::any();
+            kani::assume(s <= 26 && t <= 3 && mi <= 26);
+            let mut b = [b'x'; 50];
+            b[1] = b'\n';
+            let mut q = 0;
+            while q < 26 {
+                if q < s {
+                    b[2 + q] = b' ';
+                }
+                q += 1;
+            }
+            b[2 + s] = c;
+            b[44] = b'\n';
+            q = 0;
+            while q < 3 {
+                if q < t {
+                    b[45 + q] = b' ';
+                }
+                q += 1;
+            }
+            let got = simd::find_block_scalar_end(&b, 0, mi);
+            let want = spec_block_end(&b, 0, mi);
+            assert!(got == Some(want));
+            kani::cover!(want == 45 && s == 20 && mi == 18);
+            kani::cover!(want == 2 && s == 17 && mi == 19);
+            kani::cover!(want == 50);
+        });
+    };
+}
+block_end_indent!(c16_block_end_indent_sse2, no);
+block_end_indent!(c16_block_end_indent_avx2, yes);
 block_end_deep!(c16_block_end_deep_n48_s0_sse2, 48, 0, no);
 block_end_deep!(c16_block_end_deep_n48_s1_avx2, 48, 1, yes);
 block_end!(c16_block_end_n40_s0_avx2, 40, 0, yes);
